@@ -220,6 +220,14 @@ def transforms(p, us):
                               for k in dic))
                 if not ok:
                     fails.append(('rows-not-rowwise', '(n,d) input is not the row-wise map of the (d,) case for %s' % state_repr(p)))
+                # shape-preserving also for a batch of a single row: (1, d) in, (1, d) out, dictionary values of shape (1,)
+                one = rows[:1]
+                ph1 = p.unit_to_physical(one)
+                d1 = p.unit_to_dictionary(one)
+                if np.shape(ph1) != one.shape or not np.array_equal(np.asarray(ph1)[0], phys) or \
+                        any(np.shape(d1[k]) != (1,) for k in d1 if is_free(p.dists[p.keys.index(k)])):
+                    fails.append(('single-row-batch-loses-its-axis', 'input of shape %r gives unit_to_physical of shape %r and dictionary values of shapes %r (%s)' % (
+                        one.shape, np.shape(ph1), sorted(set(np.shape(v) for v in d1.values())), state_repr(p))))
             except Exception as e:
                 fails.append(('rows-raise', '(n,d) input raised %s for %s' % (type(e).__name__, state_repr(p))))
     elif wf and len(us) != n_free:
